@@ -310,6 +310,8 @@ def gen_dir_spec(rng, uid=0):
         nm = name()
         if kind != "json" and not pre and nm in ("info", "model"):
             nm = nm + "_u"  # known finding C11-user-file-named-like-accessor (corpus case, every run)
+        if kind == "csv" and nm == "samples":
+            nm = "samples_u"  # save_array("samples") would overwrite the samples table itself
         user.append({"kind": kind, "pre": pre, "name": nm, "value": rng.randint(0, 9)})
     # every case holds a file below a prefix (kind by turns) and a table, whatever the dice say
     forced_kind = ("json", "pickle", "fits")[uid % 3]
@@ -442,6 +444,8 @@ def files_case(ctx, uid, lookups, spec=None):
             real_flags["has_samples"] = False
         if any(u["kind"] != "json" and not u["pre"] and u["name"] in ("info", "model") for u in spec["user"]):
             real_flags.pop("has_info")  # outside the model's guard: known finding C11-user-file-named-like-accessor
+        if any(not u["pre"] and u["name"] == "samples" for u in spec["user"]):
+            real_flags.pop("has_samples")  # same fallback: without samples.csv `item.samples` is the user's file of that name
         model_flags = {k: ans["flags"][k] for k in real_flags}
         if real_flags != model_flags:
             ctx.disagree("C11.files.flags", case, real_flags, model_flags)
@@ -485,7 +489,8 @@ def files_case(ctx, uid, lookups, spec=None):
                 ctx.fail("C11-child-analyses", "a file saved by an analysis of a combined fit is not loaded", case, names(k.jsons))
         if bool(fit.is_complete) != spec["completed"]:
             ctx.fail("C11-completion-flag", "completion flag of a loaded fit differs from the directory's", case, bool(fit.is_complete))
-        if spec["info"] and dict(fit.info) != {"k": 1, "z": "w"} and {str(a): str(b) for a, b in fit.info.items()} != {"k": "1", "z": "w"}:
+        info_overwritten = any(u["kind"] == "json" and not u["pre"] and u["name"] == "info" for u in spec["user"])
+        if spec["info"] and not info_overwritten and dict(fit.info) != {"k": 1, "z": "w"} and {str(a): str(b) for a, b in fit.info.items()} != {"k": "1", "z": "w"}:
             ctx.fail("C11-info-lost", "info of a loaded fit differs from the directory's info.json", case, dict(fit.info))
         if spec["samples"] and (fit.samples is None or len(fit.samples.sample_list) != 2 or fit.max_log_likelihood != -1.0):
             ctx.fail("C11-samples-lost", "samples of a loaded fit differ from the directory's samples.csv", case, fit.max_log_likelihood)
